@@ -1,5 +1,50 @@
 import ZoektModel.Basic.Proto
+import ZoektModel.C09.Driver
+import ZoektModel.C10.Spec
 namespace ZoektModel.C10
-/-- stub: no model driver for C10 yet -/
-def main : IO Unit := ZoektModel.Proto.runLines (fun _ => ZoektModel.Proto.badCase "no model driver for C10")
+open ZoektModel ZoektModel.Proto ZoektModel.C09
+
+/-- doc: `nameHex;contentHex;category;nSymbols;nBranches;givenSkip;allowLarge` -/
+def bdoc? (sizeMax trigramMax : Nat) (i : Nat) (s : String) : Option BDoc :=
+  match s.splitOn ";" with
+  | [n, c, cat, ns, nb, gv, al] => do
+    let name ← hexToBytes? n
+    let content ← hexToBytes? c
+    let skip := builderSkip sizeMax trigramMax (← bool? al) (← gv.toNat?) content
+    pure ⟨i, name.length, content.length, skip ≠ 0, ← cat.toNat?, ← ns.toNat?, ← nb.toNat?⟩
+  | _ => none
+
+def bdocs? (sizeMax trigramMax : Nat) (s : String) : Option (List BDoc) :=
+  if s == "_" then some [] else
+  ((s.splitOn "|").zipIdx).mapM fun (x, i) => bdoc? sizeMax trigramMax i x
+
+def showShards (l : List (List Nat)) : String := "|".intercalate (l.map showNatList)
+
+def shards? (s : String) : Option (List (List Nat)) := (s.splitOn "|").mapM natList?
+
+def handle (line : String) : String :=
+  let (inp, impl) := splitCase line
+  match fields inp with
+  | ["build", sm, szm, tm, ds] =>
+    match sm.toNat?, szm.toNat?, tm.toNat? with
+    | some shardMax, some sizeMax, some trigramMax =>
+      match bdocs? sizeMax trigramMax ds with
+      | some docs =>
+        let model := showShards ((buildSorted shardMax docs).map (·.map (·.id)))
+        match shards? impl with
+        | some ishards => if checkP docs.length ishards then answer model else specFail model "partition"
+        | none => badCase "impl shards"
+      | none => badCase "docs"
+    | _, _, _ => badCase "numbers"
+  | ["reuse", script] =>
+    -- script = `<anything>~r~a:..~a:..~w`: the last write after the last reset must look like a fresh builder's
+    let cmds := script.splitOn "~"
+    let model := "~".intercalate (runPB PB.fresh cmds [])
+    let afterReset := (cmds.reverse.takeWhile (· != "r")).reverse
+    let fresh := runPB PB.fresh afterReset []
+    let implLast := (impl.splitOn "~").getLast?.getD ""
+    if fresh.getLast?.getD "" == implLast then answer model else specFail model "reuse-visible"
+  | _ => badCase "op"
+
+def main : IO Unit := runLines handle
 end ZoektModel.C10
